@@ -578,6 +578,11 @@ def _failed_not_recorded(ck: Checker) -> None:
                     # the set may be bound through a default argument (_failed=failed_paths)
                     d = child.param_default(nm) if child.has_param(nm) else None
                     failed_sets.add(norm(d) if d is not None else nm)
+                    # the bulk copy calls on_error(from_path, to_path, exc); the rows are guarded by destination
+                    pp = list(child.pos_params)
+                    ck.require(x.args[0].id in pp and pp.index(x.args[0].id) == 1, "C13.savepair", child, x,
+                               "the error callback remembers the *destination* of the failed copy (second callback argument)",
+                               f"the error callback remembers `{x.args[0].id}` (callback argument {pp.index(x.args[0].id) + 1 if x.args[0].id in pp else '?'}), not the destination: the row guard tests destinations, so a failed copy's pre-existing destination is still recorded with the target's hash")
     for n, c in saves:
         rows = norm(c.args[0]) if c.args else None
         apps = [x for x in g.nodes.values() for cc in calls_at(x) if is_method_call(cc, "append") and norm(cc.func.value) == rows]
